@@ -36,7 +36,8 @@ import (
 	"verifharness/internal/tsdrv"
 )
 
-const NT = 24
+// NT: number of timestamps (with max-rows-per-segment = 8 a fully compacted series spans up to 5 segments)
+const NT = 40
 
 // rows per segment (config max-rows-per-segment): small, so that one series has several segments in a file
 var segRows = 8
@@ -49,8 +50,9 @@ type Op struct {
 
 // PRow: one row of the plain select: time index and value code
 type PRow struct {
-	T int   `json:"t"`
-	V int64 `json:"v"`
+	T int    `json:"t"`
+	V int64  `json:"v"`
+	A *int64 `json:"a,omitempty"` // selector-with-aux statements: the aux field's value in this row (nil = null)
 }
 
 // Agg: a combined aggregate of one group
@@ -83,11 +85,17 @@ type Check struct {
 	GroupBy    string              `json:"group_by"`             // "host" (one series per group), "zone" (several), "" (no tag grouping)
 	TagFilter  string              `json:"tag_filter,omitempty"` // additional tag predicate of the WHERE clause
 	GroupHosts map[string][]string `json:"group_hosts,omitempty"`
-	PreAgg     bool                `json:"preagg"` // the shard classified the statement as eligible for the statistics shortcut
-	Compared   bool                `json:"compared"`
-	Skipped    string              `json:"skipped,omitempty"`
-	Groups     []Agg               `json:"groups"`
-	Fail       string              `json:"fail,omitempty"`
+	// selector with an auxiliary field: `SELECT last(x), y`; the call's value is checked like every other, the aux
+	// value (y of the selected row) is compared and reported as an observation (AuxChecked / AuxFail)
+	HasAux     bool   `json:"has_aux,omitempty"`
+	AuxField   int    `json:"aux_field,omitempty"`
+	AuxChecked int    `json:"aux_checked,omitempty"`
+	AuxFail    string `json:"aux_fail,omitempty"`
+	PreAgg     bool   `json:"preagg"` // the shard classified the statement as eligible for the statistics shortcut
+	Compared   bool   `json:"compared"`
+	Skipped    string `json:"skipped,omitempty"`
+	Groups     []Agg  `json:"groups"`
+	Fail       string `json:"fail,omitempty"`
 	// SigChunkTime: groups (hosts) for which some file holds a chunk of >= 2 segments that the range enters after its
 	// first row (first) / leaves before its last row (last) - where FirstLastReader may report the chunk's time
 	SigChunkTime []string `json:"sig_chunk_time,omitempty"`
@@ -123,12 +131,15 @@ type History struct {
 // ---- generation ----
 
 type genState struct {
-	r     *gen.Rand
-	nser  int
-	now   int
-	nodup bool
-	gen_  int
-	seen  map[[2]int]int // (s,t) -> generation of first write
+	r       *gen.Rand
+	nser    int
+	now     []int // per series: the series' own clock (series advance at different speeds, so the files hold different
+	speed   []int // time extents per series)
+	nodup   bool
+	gen_    int
+	seen    map[[2]int]int  // (s,t) -> generation of first write
+	flushed map[[2]int]bool // points that were in the memtable at some flush
+	pending map[[2]int]bool
 }
 
 func (g *genState) value(f int) int64 {
@@ -144,58 +155,131 @@ func (g *genState) value(f int) int64 {
 	}
 }
 
+// fields: null-heavy, most rows carry one or two fields
+func (g *genState) fields(r *tsdrv.Row) {
+	mask := 1 << uint(g.r.Intn(4))
+	if g.r.Chance(1, 2) {
+		mask |= 1 << uint(g.r.Intn(4))
+	}
+	if g.r.Chance(1, 6) {
+		mask = 15
+	}
+	for f := 0; f < tsdrv.NFields; f++ {
+		if mask&(1<<uint(f)) != 0 {
+			r.F = append(r.F, tsdrv.FV{F: f, V: g.value(f)})
+		}
+	}
+}
+
+// add: one row, unless the no-duplicate mode forbids touching this point
+func (g *genState) add(rows []tsdrv.Row, s, t int) []tsdrv.Row {
+	if t < 0 {
+		t = 0
+	}
+	if t >= NT {
+		t = NT - 1
+	}
+	k := [2]int{s, t}
+	if g0, ok := g.seen[k]; ok && g0 != g.gen_ && g.nodup {
+		return rows // no-duplicate mode: never touch a point of an earlier flush generation
+	}
+	if _, ok := g.seen[k]; !ok {
+		g.seen[k] = g.gen_
+	}
+	g.pending[k] = true
+	r := tsdrv.Row{S: s, T: t}
+	g.fields(&r)
+	return append(rows, r)
+}
+
 func (g *genState) batch() []tsdrv.Row {
-	n := g.r.Range(2, 12)
 	var rows []tsdrv.Row
-	for i := 0; i < n; i++ {
-		var r tsdrv.Row
-		r.S = g.r.Intn(g.nser)
-		switch g.r.Intn(6) {
-		case 0, 1, 2:
-			r.T = g.now + g.r.Range(-3, 2)
-		case 3:
-			r.T = g.r.Intn(g.now + 1)
-		default:
-			r.T = g.r.Intn(NT)
-		}
-		if r.T < 0 {
-			r.T = 0
-		}
-		if r.T >= NT {
-			r.T = NT - 1
-		}
-		if g0, ok := g.seen[[2]int{r.S, r.T}]; ok && g0 != g.gen_ && g.nodup {
-			continue // no-duplicate mode: never touch a point of an earlier flush generation
-		}
-		if _, ok := g.seen[[2]int{r.S, r.T}]; !ok {
-			g.seen[[2]int{r.S, r.T}] = g.gen_
-		}
-		// null-heavy: most rows carry one or two fields
-		mask := 1 << uint(g.r.Intn(4))
-		if g.r.Chance(1, 2) {
-			mask |= 1 << uint(g.r.Intn(4))
-		}
-		if g.r.Chance(1, 6) {
-			mask = 15
-		}
-		for f := 0; f < tsdrv.NFields; f++ {
-			if mask&(1<<uint(f)) != 0 {
-				r.F = append(r.F, tsdrv.FV{F: f, V: g.value(f)})
+	switch kind := g.r.Intn(10); {
+	case kind == 0 && g.nser >= 3:
+		// late data for EVERY series (lands in one out-of-order file holding many series once flushed)
+		for s := 0; s < g.nser; s++ {
+			for k := g.r.Range(1, 2); k > 0; k-- {
+				rows = g.add(rows, s, g.r.Intn(g.now[s]+1))
 			}
 		}
-		rows = append(rows, r)
+	case kind == 1 && !g.nodup && len(g.flushed) > 0:
+		// rewrite points that already live in files (a later file, an earlier file ...)
+		var keys [][2]int
+		for k := range g.flushed {
+			keys = append(keys, k)
+		}
+		sort.Slice(keys, func(a, b int) bool {
+			return keys[a][0] < keys[b][0] || (keys[a][0] == keys[b][0] && keys[a][1] < keys[b][1])
+		})
+		for k := g.r.Range(1, 4); k > 0; k-- {
+			key := gen.Pick(g.r, keys)
+			rows = g.add(rows, key[0], key[1])
+		}
+	case kind == 2:
+		// a dense run of one series: many rows per file, chunks of several segments
+		s, start := g.r.Intn(g.nser), g.r.Intn(NT/4)
+		for t, end := start, start+g.r.Range(14, NT); t < end && t < NT; t++ {
+			if g.r.Chance(7, 8) {
+				rows = g.add(rows, s, t)
+			}
+		}
+	default:
+		n := g.r.Range(2, 12)
+		if g.nser > 3 {
+			n = g.r.Range(g.nser, 3*g.nser)
+		}
+		for i := 0; i < n; i++ {
+			s := g.r.Intn(g.nser)
+			var t int
+			switch g.r.Intn(6) {
+			case 0, 1, 2:
+				t = g.now[s] + g.r.Range(-3, 2)
+			case 3:
+				t = g.r.Intn(g.now[s] + 1)
+			default:
+				t = g.r.Intn(NT)
+			}
+			rows = g.add(rows, s, t)
+		}
 	}
-	if g.now < NT-1 {
-		g.now += g.r.Range(0, 3)
-		if g.now > NT-1 {
-			g.now = NT - 1
+	for s := 0; s < g.nser; s++ {
+		if g.now[s] < NT-1 {
+			g.now[s] += g.r.Range(0, g.speed[s])
+			if g.now[s] > NT-1 {
+				g.now[s] = NT - 1
+			}
 		}
 	}
 	return rows
 }
 
+func (g *genState) flush() {
+	g.gen_++
+	for k := range g.pending {
+		g.flushed[k] = true
+	}
+	g.pending = map[[2]int]bool{}
+}
+
 func genHistory(r *gen.Rand) (int, bool, []Op) {
-	g := &genState{r: r, nser: r.Range(1, 3), now: r.Range(1, 3), nodup: r.Chance(3, 5), seen: map[[2]int]int{}}
+	nser := 1
+	switch x := r.Intn(20); {
+	case x < 3:
+		nser = 1
+	case x < 8:
+		nser = 2
+	case x < 12:
+		nser = 3
+	case x < 17:
+		nser = r.Range(4, 6)
+	default:
+		nser = r.Range(8, 12) // many series per tag group / sub-cursor
+	}
+	g := &genState{r: r, nser: nser, nodup: r.Chance(3, 5), seen: map[[2]int]int{}, flushed: map[[2]int]bool{}, pending: map[[2]int]bool{}}
+	for s := 0; s < nser; s++ {
+		g.now = append(g.now, r.Range(1, 3))
+		g.speed = append(g.speed, r.Range(1, 4))
+	}
 	n := r.Range(6, 16)
 	var ops []Op
 	for len(ops) < n {
@@ -206,7 +290,10 @@ func genHistory(r *gen.Rand) (int, bool, []Op) {
 			}
 		case x < 62:
 			ops = append(ops, Op{K: "F"})
-			g.gen_++
+			g.flush()
+			if r.Chance(1, 3) { // queries over files only (nothing left in the memtable)
+				ops = append(ops, Op{K: "Q"})
+			}
 		case x < 68:
 			ops = append(ops, Op{K: "LC", Level: r.Intn(2)})
 		case x < 73:
@@ -215,7 +302,7 @@ func genHistory(r *gen.Rand) (int, bool, []Op) {
 			ops = append(ops, Op{K: "MO"})
 		case x < 84:
 			ops = append(ops, Op{K: "R"})
-			g.gen_++
+			g.flush()
 		default:
 			ops = append(ops, Op{K: "Q"})
 		}
@@ -413,15 +500,29 @@ func (h *History) query(sh *tsdrv.Shard, opi int, r *gen.Rand, files []tsdrv.Fil
 	case 3:
 		c.Bucket = gen.Pick(r, []int{2, 3, 5})
 	}
-	switch r.Intn(10) {
-	case 0, 1:
+	gb := r.Intn(20)
+	if h.NSer >= 3 { // more series: more statements whose groups hold several series
+		gb /= 2
+	}
+	switch {
+	case gb < 4:
 		c.GroupBy = "zone" // several series per group: cross-series time ties
-	case 2:
+	case gb < 6:
 		c.GroupBy = ""
 	}
 	c.Desc = r.Chance(1, 6)
 	if r.Chance(1, 6) {
 		c.TagFilter = gen.Pick(r, tagFilters)
+	}
+	if r.Chance(1, 8) { // one selector + an auxiliary field
+		f := r.Intn(4)
+		fn := gen.Pick(r, []string{"min", "max", "first", "last"})
+		for !fnApplies(fn, f) {
+			fn = gen.Pick(r, []string{"first", "last"})
+		}
+		calls = []Call{{fn, f}}
+		c.HasAux, c.AuxField = true, (f+1+r.Intn(3))%4
+		c.GroupBy, c.Bucket = "host", 0
 	}
 	lo, hi := pickRange(r, files, h.Chunks, c.Bucket)
 	fixed := false
@@ -445,7 +546,7 @@ func (h *History) query(sh *tsdrv.Shard, opi int, r *gen.Rand, files []tsdrv.Fil
 			lo, _ = strconv.Atoi(parts[1])
 			hi, _ = strconv.Atoi(parts[2])
 			fixed = true
-			c.Hint, c.Filter, c.Bucket, c.Desc, c.GroupBy, c.TagFilter = forceHint, false, 0, false, "host", ""
+			c.Hint, c.Filter, c.Bucket, c.Desc, c.GroupBy, c.TagFilter, c.HasAux = forceHint, false, 0, false, "host", "", false
 			if len(parts) >= 4 {
 				for _, fl := range strings.Split(parts[3], ",") {
 					switch {
@@ -457,6 +558,9 @@ func (h *History) query(sh *tsdrv.Shard, opi int, r *gen.Rand, files []tsdrv.Fil
 						c.GroupBy = ""
 					case fl == "hint":
 						c.Hint = true
+					case strings.HasPrefix(fl, "aux="):
+						c.HasAux = true
+						c.AuxField, _ = strconv.Atoi(strings.TrimPrefix(fl, "aux="))
 					case strings.HasPrefix(fl, "tf="):
 						k, _ := strconv.Atoi(strings.TrimPrefix(fl, "tf="))
 						c.TagFilter = tagFilters[k%len(tagFilters)]
@@ -472,7 +576,7 @@ func (h *History) query(sh *tsdrv.Shard, opi int, r *gen.Rand, files []tsdrv.Fil
 		if n, _ := fmt.Sscanf(fx, "%d,%d,%d,%s", &a, &b, &cc, &name); n == 4 {
 			lo, hi, fixed = b, cc, true
 			calls = []Call{{name, a}}
-			c.Hint, c.Filter, c.Bucket, c.Desc, c.GroupBy, c.TagFilter = false, false, 0, false, "host", ""
+			c.Hint, c.Filter, c.Bucket, c.Desc, c.GroupBy, c.TagFilter, c.HasAux = false, false, 0, false, "host", "", false
 		}
 	}
 	if os.Getenv("VERIF_DESC") != "" {
@@ -513,6 +617,9 @@ func (h *History) query(sh *tsdrv.Shard, opi int, r *gen.Rand, files []tsdrv.Fil
 			sel += ", "
 		}
 		sel += fmt.Sprintf("%s(%s)", cl.Fn, tsdrv.FieldNames[cl.Field])
+	}
+	if c.HasAux {
+		sel += ", " + tsdrv.FieldNames[c.AuxField]
 	}
 	c.SQL = fmt.Sprintf("SELECT %s%s FROM m WHERE %s%s%s", hint, sel, where, grp, orderBy)
 	// hosts per group (signatures of the older findings are per series)
@@ -588,6 +695,14 @@ func (h *History) query(sh *tsdrv.Shard, opi int, r *gen.Rand, files []tsdrv.Fil
 			continue
 		}
 		plain := fmt.Sprintf("SELECT %s FROM m WHERE %s GROUP BY host%s", tsdrv.FieldNames[cl.Field], where, orderBy)
+		xi, ai := 0, 1 // the plain select's columns come in field order whatever the statement says
+		if c.HasAux {
+			lof, hif := cl.Field, c.AuxField
+			if lof > hif {
+				lof, hif, xi, ai = hif, lof, 1, 0
+			}
+			plain = fmt.Sprintf("SELECT %s, %s FROM m WHERE %s GROUP BY host%s", tsdrv.FieldNames[lof], tsdrv.FieldNames[hif], where, orderBy)
+		}
 		if c.Plain != "" {
 			c.Plain += " ; "
 		}
@@ -600,7 +715,11 @@ func (h *History) query(sh *tsdrv.Shard, opi int, r *gen.Rand, files []tsdrv.Fil
 		}
 		m := map[string][]PRow{}
 		for _, pr := range plainRows {
-			if len(pr.Cells) != 1 || pr.Cells[0].Nil {
+			want := 1
+			if c.HasAux {
+				want = 2
+			}
+			if len(pr.Cells) != want || pr.Cells[xi].Nil {
 				continue
 			}
 			t := tsdrv.IdxOf(pr.Time)
@@ -608,7 +727,12 @@ func (h *History) query(sh *tsdrv.Shard, opi int, r *gen.Rand, files []tsdrv.Fil
 			if c.Bucket > 0 {
 				g += "/" + strconv.Itoa(bucketOf(t, c.Bucket))
 			}
-			m[g] = append(m[g], PRow{T: t, V: cellCode(cl.Field, pr.Cells[0])})
+			row := PRow{T: t, V: cellCode(cl.Field, pr.Cells[xi])}
+			if c.HasAux && !pr.Cells[ai].Nil {
+				av := cellCode(c.AuxField, pr.Cells[ai])
+				row.A = &av
+			}
+			m[g] = append(m[g], row)
 		}
 		rowsByField[cl.Field] = m
 	}
@@ -621,6 +745,9 @@ func (h *History) query(sh *tsdrv.Shard, opi int, r *gen.Rand, files []tsdrv.Fil
 		if cl.Fn == "mean" {
 			ncols++
 		}
+	}
+	if c.HasAux {
+		ncols++
 	}
 	type part struct {
 		v int64
@@ -656,6 +783,9 @@ func (h *History) query(sh *tsdrv.Shard, opi int, r *gen.Rand, files []tsdrv.Fil
 				v = cell.I
 			} else {
 				v = cellCode(f, cell)
+			}
+			if os.Getenv("VERIF_DEBUG") != "" {
+				fmt.Fprintf(os.Stderr, "DBG %s col=%d group=%s S=%q I=%d F=%v B=%v celltime=%d rowtime=%d\n", c.SQL, col, aggGroup(ar), cell.S, cell.I, cell.F, cell.B, tsdrv.IdxOf(cell.Time), tsdrv.IdxOf(ar.Time))
 			}
 			parts[aggGroup(ar)] = append(parts[aggGroup(ar)], part{v, tsdrv.IdxOf(cell.Time)})
 		}
@@ -796,6 +926,72 @@ func (h *History) query(sh *tsdrv.Shard, opi int, r *gen.Rand, files []tsdrv.Fil
 				}
 			}
 			c.Groups = append(c.Groups, a)
+		}
+	}
+	if c.HasAux && c.Fail == "" && c.Compared {
+		// the aux value must be the aux field of a row the selector may have picked: same value as the result, and for
+		// first / last the extreme time. The winning partial result is chosen as `combine` does.
+		fn, f := calls[0].Fn, calls[0].Field
+		type win struct {
+			v    int64
+			t    int
+			aux  *int64
+			seen bool
+		}
+		wins := map[string]*win{}
+		for _, ar := range aggRows {
+			if len(ar.Cells) != 2 || ar.Cells[0].Nil {
+				continue
+			}
+			g := aggGroup(ar)
+			v, t := cellCode(f, ar.Cells[0]), tsdrv.IdxOf(ar.Cells[0].Time)
+			var aux *int64
+			if !ar.Cells[1].Nil {
+				av := cellCode(c.AuxField, ar.Cells[1])
+				aux = &av
+			}
+			w := wins[g]
+			if w == nil {
+				wins[g] = &win{v, t, aux, true}
+				continue
+			}
+			better := (fn == "min" && v < w.v) || (fn == "max" && v > w.v) || (fn == "first" && t < w.t) || (fn == "last" && t > w.t)
+			if better {
+				*w = win{v, t, aux, true}
+			}
+		}
+		for g, w := range wins {
+			rows := rowsByField[f][g]
+			if len(rows) == 0 {
+				continue
+			}
+			bt := rows[0].T
+			for _, x := range rows {
+				if (fn == "first" && x.T < bt) || (fn == "last" && x.T > bt) {
+					bt = x.T
+				}
+			}
+			ok, cands := false, 0
+			for _, x := range rows {
+				if x.V != w.v || ((fn == "first" || fn == "last") && x.T != bt) {
+					continue
+				}
+				cands++
+				if (x.A == nil && w.aux == nil) || (x.A != nil && w.aux != nil && *x.A == *w.aux) {
+					ok = true
+				}
+			}
+			if cands == 0 {
+				continue // the call's own value is wrong: reported by the oracle above
+			}
+			c.AuxChecked++
+			if !ok && c.AuxFail == "" {
+				got := "null"
+				if w.aux != nil {
+					got = strconv.FormatInt(*w.aux, 10)
+				}
+				c.AuxFail = fmt.Sprintf("group %s: %s(%s)=%d, aux %s=%s is not the aux value of a row carrying the selected value", g, fn, tsdrv.FieldNames[f], w.v, tsdrv.FieldNames[c.AuxField], got)
+			}
 		}
 	}
 	h.Checks = append(h.Checks, c)
